@@ -301,8 +301,15 @@ def run_case(c, d):
         shape = shape[:L]
     ratio = psd / shape
     const = float(np.median(ratio))
-    c.compare('class:psd-proportional-to-|B|^2/|A|^2', ratio, np.full(L, const), 1e-9, f2, scale=abs(const),
-              detail={'NFFT': nfft})
+    # evaluating |B|^2/|A|^2 next to a zero of A or B amplifies rounding by sum|a|/|A(f)| resp. sum|b|/|B(f)| (the same
+    # per-bin allowance as the arma2psd contract of C08: 1e-9 + 1e-13 of those factors)
+    sa = float(np.sum(np.abs(np.asarray(ar)))) + 1.0 if ar is not None else 1.0
+    sb = float(np.sum(np.abs(np.asarray(ma_)))) + 1.0 if ma_ is not None else 1.0
+    with np.errstate(divide='ignore', invalid='ignore'):
+        allowed = 1e-9 + 1e-13 * (sa / np.abs(A) + sb / np.abs(B))[:L]
+        dev = np.abs(ratio / const - 1.0) / allowed
+    c.compare('class:psd-proportional-to-|B|^2/|A|^2', dev, np.zeros(L), 1.0, f2, scale=1.0,
+              detail={'NFFT': nfft, 'const': const, 'max_allowed': float(np.max(allowed))})
     if rho is not None:
         want = float(np.real(rho)) / fs
         if cplx:
